@@ -35,15 +35,21 @@ fn put_frame(buf: &mut [u8; crate::net::IN_CAP], n: &mut usize, fin: bool, opcod
 
 /// Checks that out[pos..] starts with the unmasked server frame (fin, opcode, payload) and returns the new position.
 fn expect_frame(out: &Captured, pos: usize, opcode: u8, payload: &[u8]) -> usize {
-    assert!(out.len >= pos + 2 + payload.len(), "C11 output: a complete server frame is written");
+    let hl = if payload.len() < 126 { 2 } else { 4 };
+    assert!(out.len >= pos + hl + payload.len(), "C11 output: a complete server frame is written");
     assert!(out.bytes[pos] == (0x80 | opcode), "C11 output: FIN set, RSV clear, expected opcode");
-    assert!(out.bytes[pos + 1] == payload.len() as u8, "C11 output: server frames are unmasked with the 7-bit length");
+    if payload.len() < 126 {
+        assert!(out.bytes[pos + 1] == payload.len() as u8, "C11 output: server frames are unmasked with the 7-bit length");
+    } else {
+        assert!(out.bytes[pos + 1] == 126 && out.bytes[pos + 2] == (payload.len() >> 8) as u8 && out.bytes[pos + 3] == payload.len() as u8,
+                "C11 output: unmasked frame with the 16-bit extended length");
+    }
     let mut i = 0;
     while i < payload.len() {
-        assert!(out.bytes[pos + 2 + i] == payload[i], "C11 output: payload octet");
+        assert!(out.bytes[pos + hl + i] == payload[i], "C11 output: payload octet");
         i += 1;
     }
-    pos + 2 + payload.len()
+    pos + hl + payload.len()
 }
 
 /// T1: one data frame of L bytes; recv() returns it; dropping the stream sends a Close frame.
@@ -203,6 +209,25 @@ pub fn nb_close<S: Src, const LC: usize, const PLAN: usize, const K: usize>(s: &
         matches!(r, Restion::Err(WebsocketError::ConnectionClosed))
     });
     assert!(res, "C11 non-blocking receive: a Close frame that has started to arrive is received like in blocking mode (ConnectionClosed)");
+    let end = expect_frame(&out, 0, 0x8, &pc);
+    assert!(out.len == end, "C11 non-blocking close: answered by exactly one Close frame");
+    s.reached();
+}
+
+/// T4d: non-blocking receive when ONE header byte has arrived and the rest arrives later: the frame has started, so the
+/// result must be the message (here: Close -> ConnectionClosed), never `nothing yet` with the byte swallowed.
+pub fn nb_close_gap<S: Src, const LC: usize>(s: &mut S) {
+    let key: [u8; 4] = s.bytes::<4>();
+    let pc: [u8; LC] = s.bytes::<LC>();
+    let mut buf = [0u8; crate::net::IN_CAP];
+    let mut n = 0;
+    put_frame(&mut buf, &mut n, true, 0x8, key, &pc);
+    let (res, out) = crate::net::with_conn_gap(&buf, n, Plan::Split(1), true, true, |st| {
+        let mut ws = WebsocketStream::new(st);
+        let r = ws.recv_nonblocking();
+        matches!(r, Restion::Err(WebsocketError::ConnectionClosed))
+    });
+    assert!(res, "C11 non-blocking receive: once the first header byte has been consumed the frame is received (not `nothing yet`), even if the second byte arrives later");
     let end = expect_frame(&out, 0, 0x8, &pc);
     assert!(out.len == end, "C11 non-blocking close: answered by exactly one Close frame");
     s.reached();
